@@ -9,7 +9,7 @@ CONSTANTS
   GATEWAY = "gw"
   DEVS = {"DEV_RevertedFrameKeepsPrecompileWrites"}
   SENDERS = {"a1", "a2"}
-  TARGETS = {"a2", "c", "w", "new"}
+  TARGETS = {"a2", "c", "w", "new", "newp"}
   TYPES = {"leg", "dyn"}
   PCS_N = {"at", "above"}
   PCS_X = {"below"}
